@@ -10,14 +10,21 @@ pub struct Exp {
     pub null_ok: bool,
     /// this value is an acceptable output (up to the comparator of the property)
     pub val: Option<f64>,
+    /// null because the window holds fewer valid observations than min_periods / the intrinsic minimum
+    /// (warm-up, judged by C05) as opposed to null because the statistic is undefined on the window
+    pub warm: bool,
+    /// the property leaves this output open (e.g. skewness of the rounding noise left by an exact fit)
+    pub any: bool,
 }
 impl Exp {
-    pub const NULL: Exp = Exp { null_ok: true, val: None };
+    pub const NULL: Exp = Exp { null_ok: true, val: None, warm: false, any: false };
+    pub const WARM: Exp = Exp { null_ok: true, val: None, warm: true, any: false };
+    pub const ANY: Exp = Exp { null_ok: true, val: None, warm: false, any: true };
     pub fn val(v: f64) -> Exp {
-        Exp { null_ok: false, val: Some(v) }
+        Exp { null_ok: false, val: Some(v), warm: false, any: false }
     }
     pub fn either(v: f64) -> Exp {
-        Exp { null_ok: true, val: Some(v) }
+        Exp { null_ok: true, val: Some(v), warm: false, any: false }
     }
     pub fn of(v: Option<f64>) -> Exp {
         match v {
@@ -26,6 +33,9 @@ impl Exp {
         }
     }
     pub fn show(&self) -> String {
+        if self.any {
+            return "any".into();
+        }
         match (self.null_ok, self.val) {
             (true, None) => "null".into(),
             (false, Some(v)) => format!("{v:?}"),
@@ -99,7 +109,7 @@ pub fn expect1(f: R1, win: &[X], w: usize, mp: Option<usize>) -> Exp {
     let v = valid(win);
     let n = v.len();
     if n < mp_eff(f, w, mp).max(f.k_min()) {
-        return Exp::NULL;
+        return Exp::WARM;
     }
     let cur = *win.last().unwrap();
     match f {
@@ -259,7 +269,7 @@ pub fn expect2(f: R2, wa: &[X], wb: &[X], w: usize, mp: Option<usize>) -> Exp {
     let n = y.len();
     let mpe = mp.unwrap_or(w / 2).min(w);
     if n < mpe.max(f.k_min()) {
-        return Exp::NULL;
+        return Exp::WARM;
     }
     match f {
         R2::Cov => Exp::of(stats::cov(&y, &x)),
@@ -278,7 +288,7 @@ pub fn expect2(f: R2, wa: &[X], wb: &[X], w: usize, mp: Option<usize>) -> Exp {
                         // residuals of an exact fit are all (numerically) zero: skewness 0/0
                         let sse: f64 = r.iter().map(|e| e * e).sum();
                         if sse <= 1e-18 {
-                            Exp { null_ok: true, val: Some(0.0) }
+                            Exp::ANY
                         } else {
                             Exp::of(stats::skew(&r))
                         }
@@ -309,7 +319,7 @@ mod tests {
         let want = [f64::NAN, 6., 3., 1.5, 2.333333333333332];
         for (e, w) in m.iter().zip(want) {
             if w.is_nan() {
-                assert_eq!(*e, Exp::NULL);
+                assert!(e.val.is_none() && e.null_ok);
             } else {
                 assert!((e.val.unwrap() - w).abs() < 1e-9);
             }
@@ -320,7 +330,7 @@ mod tests {
         let want = [f64::NAN, 0.707107, 1.0, f64::NAN, 1.091089, 0.872872, 1.0, f64::NAN, 1.091089, 0.872872];
         for (e, w) in m.iter().zip(want) {
             if w.is_nan() {
-                assert_eq!(*e, Exp::NULL);
+                assert!(e.val.is_none() && e.null_ok);
             } else {
                 assert!((e.val.unwrap() - w).abs() < 1e-5);
             }
@@ -331,7 +341,7 @@ mod tests {
         let want = [f64::NAN, 0.5, -0.875, 3.0625, -2., 0.75];
         for (e, w) in m.iter().zip(want) {
             if w.is_nan() {
-                assert_eq!(*e, Exp::NULL);
+                assert!(e.val.is_none() && e.null_ok);
             } else {
                 assert!((e.val.unwrap() - w).abs() < 1e-12, "{e:?} {w}");
             }
